@@ -32,12 +32,16 @@ def main():
     if "--tier" in sys.argv:
         tier = sys.argv[sys.argv.index("--tier") + 1]
         args.remove(tier)
+    out_name = None
+    if "--out" in sys.argv:
+        out_name = sys.argv[sys.argv.index("--out") + 1]
+        args.remove(out_name)
     wt, n, pid = args[0], args[1], args[2]
     checks = args[3:] or [pid]
     mdir = os.path.join(wt, "mutants")
     diff = os.path.join(mdir, f"m{n}.diff")
     demo = os.path.join(mdir, f"demo_m{n}.py")
-    out = os.path.join(VERIF, "seeded", f"{pid}-m{n}")
+    out = os.path.join(VERIF, "seeded", out_name or f"{pid}-m{n}")
     os.makedirs(out, exist_ok=True)
     meta = {"property": pid, "mutant": f"m{n}", "source": "independent sub-agent given only the property text and a scratch worktree"}
     pyenv = {"PYTHONPATH": wt}
@@ -74,8 +78,9 @@ def main():
     shutil.rmtree(scratch, ignore_errors=True)
     # the evidence file was rewritten by a run against the mutated copy: restore the committed one
     sh("git checkout -- evidence 2>/dev/null", cwd=VERIF)
-    shutil.copy(diff, os.path.join(out, "patch.diff"))
-    shutil.copy(demo, os.path.join(out, "demo.py"))
+    if os.path.abspath(diff) != os.path.abspath(os.path.join(out, "patch.diff")):
+        shutil.copy(diff, os.path.join(out, "patch.diff"))
+        shutil.copy(demo, os.path.join(out, "demo.py"))
     readme = os.path.join(mdir, "README.md")
     if os.path.exists(readme):
         shutil.copy(readme, os.path.join(out, "author_README.md"))
